@@ -595,16 +595,16 @@ def gen_construct(rng, tier):
             cases.append(Case("construct:pyscalar", f"polynomial({x!r}, dtype={d})",
                               (lambda x=x, d=d: numpoly.polynomial(x, dtype=d)), exp, coq, [()],
                               (lambda Q, s=s, d=d: {"writes": [(s, d or s)]}), table=("construct-scalar", s, d or "-")))
-    # coefficient lists of mixed dtypes: the dtype comes from the first coefficient
+    # coefficient lists of mixed dtypes: the common dtype (numpy.result_type) of all coefficients
     for s1, s2 in itertools.product(["int64", "float64", "int8", "uint32", "bool", "complex128", "float32"], repeat=2):
         v1, v2 = cast_vals(rng, s1, None, 3), [v for v in cast_vals(rng, s2, s1, 3)]
         a1, a2 = to_array(v1, s1), to_array(v2, s2)
         cases.append(Case("construct:mixed", f"from_attributes coefficients {s1},{s2}",
                           (lambda a1=a1, a2=a2: numpoly.polynomial_from_attributes([[0], [1]], [a1, a2])),
-                          (lambda a1=a1, a2=a2, s1=s1: ("ok", s1, a1.shape, {(): a1, ((0, 1),): np_cast(a2, s1)})),
+                          (lambda a1=a1, a2=a2, s1=s1, s2=s2: ("ok", rt(s1, s2), a1.shape, {(): np_cast(a1, rt(s1, s2)), ((0, 1),): np_cast(a2, rt(s1, s2))})),
                           (lambda o, s1=s1, s2=s2, v1=v1, v2=v2:
                            f"chk (from_attributes Q None 2%nat [({CQ[s1]}, {cvals(s1, v1)}); ({CQ[s2]}, {cvals(s2, v2)})]) {o[0]} {o[1]}"),
-                          [(), ((0, 1),)], (lambda Q, s1=s1, s2=s2: {"writes": [(s1, s1), (s2, s1)]}),
+                          [(), ((0, 1),)], (lambda Q, s1=s1, s2=s2: {"writes": [(s1, rt(s1, s2)), (s2, rt(s1, s2))]}),
                           table=("construct-mixed", s1, s2)))
     return cases
 
